@@ -395,11 +395,20 @@ func ruleDeclaredSizes(p *Prog, r *Report) {
 		ttSize, okT := smlConst(p, "tokenTypeDataItemSize")
 		evaluated := okT
 		var wrong []string
-		for _, c := range []struct {
+		type sizeCase struct {
 			text     string
 			min, max int64
-		}{{"[5]", 5, 5}, {"[0]", 0, 0}, {"[12]", 12, 12}, {"[2..7]", 2, 7}, {"[12..345]", 12, 345}, {"[2..]", 2, -1}, {"[..7]", 0, 7},
+		}
+		var cases []sizeCase
+		for _, c := range []sizeCase{{"[5]", 5, 5}, {"[0]", 0, 0}, {"[12]", 12, 12}, {"[2..7]", 2, 7}, {"[12..345]", 12, 345}, {"[2..]", 2, -1}, {"[..7]", 0, 7},
 			{"[010]", 10, 10}, {"[08..09]", 8, 9}, {"[7..2]", 7, 2}} {
+			cases = append(cases, sizeCase{c.text, c.min, c.max})
+		}
+		// and around every integer constant of the reader's own code
+		for _, e := range extraSizes(fn) {
+			cases = append(cases, sizeCase{fmt.Sprintf("[%d]", e), int64(e), int64(e)}, sizeCase{fmt.Sprintf("[%d..%d]", e, e+7), int64(e), int64(e + 7)}, sizeCase{fmt.Sprintf("[3..%d]", e), 3, int64(e)})
+		}
+		for _, c := range cases {
 			if !evaluated {
 				break
 			}
@@ -427,7 +436,7 @@ func ruleDeclaredSizes(p *Prog, r *Report) {
 			if len(wrong) > 0 {
 				r.bad(rule, key, p.Pos(fn.Pos()), strings.Join(firstN(wrong, 4), "; "))
 			} else {
-				r.ok(rule, key, p.Pos(fn.Pos()), "evaluated on ten size tokens: [n] sets both bounds to n, [a..b] sets (a, b), [a..] leaves the upper bound open (-1), [..b] starts at 0; the numbers are read as decimals")
+				r.ok(rule, key, p.Pos(fn.Pos()), "evaluated on size tokens of every form, with numbers around every constant of the reader's code: [n] sets both bounds to n, [a..b] sets (a, b), [a..] leaves the upper bound open (-1), [..b] starts at 0; the numbers are read as decimals")
 			}
 		} else if len(atoi) != 3 || len(idx) != 1 {
 			r.unk(rule, key, p.Pos(fn.Pos()), fmt.Sprintf("expected three strconv.Atoi calls and one strings.Index call, found %d and %d", len(atoi), len(idx)))
